@@ -219,6 +219,8 @@ structure Facts where
   closeFsyncs : Tri
   /-- in both compaction bodies `os.Rename` comes after `writer.Close()` and is the last file operation -/
   renameAfterClose : Tri
+  /-- … and a failing `writer.Close()` (flush or fsync error) returns before the rename -/
+  closeErrorAborts : Tri
   /-- flushLocked writes block header, payload, file header, in this order -/
   flushOrderCanonical : Tri
   /-- the CLI's compactSwamp only calls NewCompactor(...).Compact() / ShouldCompact() -/
@@ -240,7 +242,7 @@ def cfgOf (f : Facts) : Cfg :=
     rmTempCompactor := f.rmTempCompactor.isYes }
 
 def modelApplies (f : Facts) : Bool :=
-  f.opensExistingForAppend.isYes && f.renameAfterClose.isYes && f.flushOrderCanonical.isYes &&
+  f.opensExistingForAppend.isYes && f.renameAfterClose.isYes && f.closeErrorAborts.isYes && f.flushOrderCanonical.isYes &&
   f.cliUsesCompactorOnly.isYes && f.triggersUseLocked.isYes && f.loadUsesFromIndex.isYes &&
   f.rmTempLocked != .unknown && f.rmTempFromIndex != .unknown && f.rmTempCompactor != .unknown &&
   f.loadCleansTemp != .unknown && f.closeFsyncs != .unknown &&
